@@ -240,6 +240,7 @@ type vttRender struct {
 	blankInStyle        bool
 	idMix               uint64
 	voiceClass          bool
+	ownLine             bool
 }
 
 func (o vttRender) String() string {
@@ -256,7 +257,7 @@ func (o vttRender) idKindOf(k int) int {
 
 func vttGenRender(r *fw.Rand) vttRender {
 	return vttRender{eol: fw.Pick(r, []string{"\n", "\r\n", "\r"}), bom: r.P(1, 3), idKind: fw.Pick(r, []int{0, 3, 3, 1, 2}), idMix: r.U64(), shortTime: r.Bool(), tabs: r.P(1, 3),
-		header: fw.Pick(r, []string{"", "", " - Some title", "\ttitle"}), mapFirst: r.Bool(), tsBeforeTags: r.Bool(), closeVoice: r.Bool(), noteBeforeRegions: r.P(1, 4), escAll: r.Bool(), regionsBeforeStyles: r.Bool(), blankInStyle: r.P(1, 4), voiceClass: r.P(1, 3)}
+		header: fw.Pick(r, []string{"", "", " - Some title", "\ttitle"}), mapFirst: r.Bool(), tsBeforeTags: r.Bool(), closeVoice: r.Bool(), noteBeforeRegions: r.P(1, 4), escAll: r.Bool(), regionsBeforeStyles: r.Bool(), blankInStyle: r.P(1, 4), voiceClass: r.P(1, 3), ownLine: r.P(1, 3)}
 }
 
 func vttFmtTime(msv int64, short bool) string {
@@ -452,6 +453,9 @@ func vttRenderDoc(m vttModel, o vttRender, r *fw.Rand) []byte {
 					closeTo(commonWith(c.Lines[li+1].Segs[0].Tags))
 				}
 			} else if r.Bool() {
+				if o.ownLine && len(stack) > 0 && line.Voice == "" {
+					b.WriteString(o.eol) // the closing tags stand on a line of their own: it denotes no text line
+				}
 				closeTo(0)
 			}
 			if line.Voice != "" && o.closeVoice && len(stack) == 0 {
